@@ -302,6 +302,9 @@ outerloop:
 		} else if opElementLength == -2 { // 2 bytes long length indicator
 			opElementLength = int(binary.BigEndian.Uint16(opElements[index+1 : index+1+2]))
 			index += 1 + 2 + opElementLength
+		} else {
+			// unknown element ID: its length is unknown, the walk cannot go on
+			break outerloop
 		}
 	}
 
